@@ -97,7 +97,8 @@ func c29Schedules(tier string) []string {
 		}
 	}
 	if tier != "thorough" {
-		for _, s := range []string{"a4 b6 R c4 d6", "R a4 b6 c4", "a4 b6 c4 d6", "a4 R R b6", "d6 e4 R a4 g6 R", "b6 R a4", "a4 c4 R c4 b6 R", "R R a4"} {
+		for _, s := range []string{"a4 b6 R c4 d6", "R a4 b6 c4", "a4 b6 c4 d6", "a4 R R b6", "d6 e4 R a4 g6 R", "b6 R a4", "a4 c4 R c4 b6 R", "R R a4",
+			"R b6 d6 a4 c4"} { // after a write-out: two IPv6 flows (b6, d6) and two IPv4 packets of one flow in memory that share sip,dip
 			add(strings.Fields(s))
 		}
 		return out
@@ -518,7 +519,7 @@ func init() {
 	})
 	register("C29", &explore.Scenario{
 		ID: "C29", Name: "live queries at every subset of positions of a packet / write-out schedule", Level: "model_checking",
-		Rule:  "cases = schedule x query spec. Schedules: <=4 packets (mixed IPv4/IPv6 alphabet of C21; a4/c4 are the two directions of one conversation) and <=2 write-outs (quick: 8 hand-picked; thorough: every placement of 0-2 write-outs into every prefix of one packet sequence and into a second full sequence, 73 schedules). Query specs: attribute set {sip,dip,dport,proto | sip,dip} x conditions {none, sip=, dip=, snet=, dnet=, snet|sip, snet&dip, dnet|dnet (thorough also proto=, sip|sip v4/v6, !dnet, dport|dip)}, thorough also {dport,proto | sip} x {none, snet=}. Per case EVERY subset of the schedule's positions (before each step and at the end) carries a live query through the real QueryRunner with WithLiveData; rows are compared with a Go-map aggregation of stored blocks + in-memory flows under the condition's reference predicate; after a closing write-out a raw+time query over the database must equal the run without live queries and the reference blocks; non-trivial = live queries answered while flows were in memory, distinct by (stored/memory class, query, counts, condition)",
+		Rule:  "cases = schedule x query spec. Schedules: <=4 packets (mixed IPv4/IPv6 alphabet of C21; a4/c4 are the two directions of one conversation) and <=2 write-outs (quick: 9 hand-picked; thorough: every placement of 0-2 write-outs into every prefix of one packet sequence and into a second full sequence, 73 schedules). Query specs: attribute set {sip,dip,dport,proto | sip,dip} x conditions {none, sip=, dip=, snet=, dnet=, snet|sip, snet&dip, dnet|dnet (thorough also proto=, sip|sip v4/v6, !dnet, dport|dip)}, thorough also {dport,proto | sip} x {none, snet=}. Per case EVERY subset of the schedule's positions (before each step and at the end) carries a live query through the real QueryRunner with WithLiveData; rows are compared with a Go-map aggregation of stored blocks + in-memory flows under the condition's reference predicate; after a closing write-out a raw+time query over the database must equal the run without live queries and the reference blocks; non-trivial = live queries answered while flows were in memory, distinct by (stored/memory class, query, counts, condition)",
 		Cases: func(t string) int { return len(c29Schedules(t)) * len(c29Specs(t)) * 4 },
 		Bound: func(string) int { return 0 },
 		Run:   c29Run, Setup: c29Setup, PanicSig: "panic",
